@@ -24,11 +24,11 @@ class Live:
     def __init__(self, args: List[str], run_dir: str, plugins: Optional[List[str]] = None, hashseed: int = 0,
                  resolver: Optional[Dict[str, str]] = None, events: Optional[List[str]] = None,
                  module_state: Optional[Dict[str, Any]] = None, switch_interval: Optional[float] = None,
-                 ready_timeout: float = 40.0) -> None:
+                 ready_timeout: float = 40.0, second: Optional[List[str]] = None) -> None:
         self.run_dir = run_dir
         os.makedirs(run_dir, exist_ok=True)
         spec = {'args': args, 'run_dir': run_dir, 'plugins': plugins or [], 'resolver': resolver or {}, 'events': events or [],
-                'module_state': module_state or {}, 'switch_interval': switch_interval}
+                'module_state': module_state or {}, 'switch_interval': switch_interval, 'second': second}
         e = dict(os.environ)
         e.update({'PYTHONHASHSEED': str(hashseed), 'PYTHONDONTWRITEBYTECODE': '1', env.GUARD: '1', 'VERIF_REPO': env.REPO})
         self.proc = subprocess.Popen([sys.executable, '-m', 'rig.live_driver', json.dumps(spec)], cwd=env.VERIF, env=e,
